@@ -46,6 +46,10 @@ CATALOGUE = [
     ("union", [ARR("a b"), ARR("a", "Int")]),
     ("union", [("int",), ARR("#a *v")]),
     ("tuple", [("int",), ARR("a")]),
+    # broadcastable variadics: an earlier leaf may WIDEN an existing binding (no new key), a later leaf fails
+    ARR("*#v a"),
+    ARR("*#v"),
+    ("tuple", [ARR("*#v"), ARR("#a")]),
     # a tuple that is an L by type but not by shape must stay a (failing) leaf, not be descended into
     ("union", [("tuple", [ARR("2"), ARR("3")]), ARR("...")]),
 ]
@@ -115,7 +119,7 @@ def build_state(rng):
     single, variadic = {}, {}
     done = []
     for _ in range(rng.choice((0, 0, 1, 2))):
-        spec = rng.choice(("a", "a b", "*v", "b *v", "#a"))
+        spec = rng.choice(("a", "a b", "*v", "b *v", "#a", "*#v", "*#v", "#a *#v"))
         toks = M.parse(spec)
         shape = G.gen_shape_for(rng, toks, single, variadic, {}, p_perturb=0.0, max_rank=3)
         vd, why, s1, v1 = M.match(toks, shape, single, variadic, {})
